@@ -161,6 +161,44 @@ class Shard:
                 self.errors.append(traceback.format_exc()[-1800:])
             return None
 
+    def absorb(self, other):
+        """Merge what a temporary shard observed."""
+        self.evals += other.evals
+        self.hashes |= other.hashes
+        self.counters.update(other.counters)
+        self.features.update(other.features)
+        self.errors.extend(other.errors)
+        for s in other.samples:
+            self.sample(s)
+
+    def with_finding(self, key, applies, run, neutralised_run):
+        """Run one case; if it violates and the known mechanism `key` applies,
+        re-run the neutralised case: violations are attributed to the finding
+        only when the neutralised case is clean."""
+        if not applies:
+            return run(self)
+        tmp = Shard(self.prop, self.spec)
+        r = run(tmp)
+        if not tmp.violations:
+            self.absorb(tmp)
+            return r
+        tmp2 = Shard(self.prop, self.spec)
+        try:
+            neutralised_run(tmp2)
+            clean = not tmp2.violations and not tmp2.errors
+        except Exception:
+            clean = False
+        tmp.violations, vs = [], tmp.violations
+        self.absorb(tmp)
+        import base64, pickle
+        for v in vs:
+            try:
+                case = pickle.loads(base64.b64decode(v["pickle"])) if v["pickle"] else v["case"]
+            except Exception:
+                case = v["case"]
+            self.violation(v["kind"], v["detail"], case, known_key=key if clean else None, what="%s: %s" % (v["kind"], v["detail"][:150]))
+        return None
+
     def result(self):
         return {
             "errors": self.errors,
